@@ -98,10 +98,16 @@ def _rebase_fail(mem: Any, fail: dict) -> None:
 
 async def _sc_tls_aclose(case: dict, inj: _Inject) -> dict:
     backend, mem, peer, wire = tlsharness.new_session(case)
-    wire.auto_close_reply = case["peer_reply"] == "prompt"
+    wire.auto_close_reply = case["peer_reply"] in ("prompt", "closed-first")
     conductor = asyncio.create_task(wire.conductor())
     try:
         tls = await tlsharness.wrap_sut(case, mem, shutdown_timeout=case.get("shutdown_timeout", 30.0))
+        if case["peer_reply"] == "closed-first":
+            # the peer sends its close_notify first and the application reads the clean EOF before closing
+            peer.close()
+            wire.kick()
+            if await tls.recv(1024) != b"":
+                raise HarnessError("expected EOF after the peer's close_notify")
         if case["peer_reply"] == "late":
 
             def reply() -> None:
@@ -369,7 +375,46 @@ async def _sc_server_client(case: dict, inj: _Inject) -> dict:
     return {"end": end, "facts": facts}
 
 
+async def _sc_client_connecting(case: dict, inj: _Inject) -> dict:
+    """AsyncTCPNetworkClient that is still connecting: a send_packet() started the (slow) connection and holds the send
+    lock meanwhile; aclose() must abort the attempt instead of waiting for it"""
+    backend = VerifBackend()
+    mem = MemStreamTransport(backend, script=case["mem_script"])
+    backend.connect_transports.append(mem)
+    backend.connect_gate = asyncio.Event()
+    client = AsyncTCPNetworkClient(("localhost", 9000), StreamProtocol(StringLineSerializer()), backend)
+    starter = asyncio.create_task(client.send_packet("first") if case["starter"] == "send" else client.wait_connected())
+    for _ in range(case["start_ticks"]):
+        await asyncio.sleep(0)
+    if case.get("connect_completes_after") is not None:
+        asyncio.get_running_loop().call_later(case["connect_completes_after"], backend.connect_gate.set)
+    try:
+        end = await _run_close(backend, client.aclose, inj)
+        # a transport that was handed to the client before/while closing must be closed; one that never left the backend's
+        # queue was never opened
+        handed_out = mem not in backend.connect_transports
+        facts: dict[str, Any] = {
+            "underlying": [("transport", mem.closed)] if handed_out else [],
+            "outer_closing": client.is_closing(),
+            "second": None,
+        }
+        if not starter.done():
+            for _ in range(10):
+                await asyncio.sleep(0)
+        facts["starter_done"] = starter.done()
+        facts["second"] = await _second_close(client)
+        return {"end": end, "facts": facts}
+    finally:
+        backend.connect_gate.set()
+        if not starter.done():
+            starter.cancel()
+        await asyncio.gather(starter, return_exceptions=True)
+        if not mem.closed:
+            await mem.aclose()
+
+
 SCENARIOS = {
+    "client-connecting": _sc_client_connecting,
     "adapter": _sc_adapter,
     "server-client": _sc_server_client,
     "tls-aclose": _sc_tls_aclose,
@@ -414,6 +459,8 @@ def _judge(case: dict, r: dict, mode: str | None, k: int | None) -> None:
             )
     if facts.get("outer_closing") is False:
         raise Violation("not-closing", f"{case['path']}: is_closing() is False after the close task ended ({where['ended']})", **where)
+    if case["path"] == "client-connecting" and facts.get("starter_done") is False:
+        raise Violation("pending-operation-not-aborted", f"client-connecting: the operation that was connecting is still pending after the close task ended ({where['ended']})", **where)
     if facts.get("second_error"):
         raise Violation(
             "second-close-failed", f"{case['path']}: a second close() from an uncancelled task raised {facts['second_error']} (first close {where['ended']})", **where
@@ -493,7 +540,7 @@ def st_mem_script() -> st.SearchStrategy[dict]:
 def st_case(draw: st.DrawFn, tier: str) -> dict:
     path = draw(
         st.sampled_from(
-            ["tls-aclose", "tls-aclose", "tls-wrap", "stapled-stream", "stapled-datagram", "endpoint", "client", "client", "adapter", "server-client", "server-client"]
+            ["tls-aclose", "tls-aclose", "tls-wrap", "stapled-stream", "stapled-datagram", "endpoint", "client", "client", "client-connecting", "adapter", "server-client", "server-client"]
         )
     )
     if path == "tls-aclose":
@@ -502,9 +549,9 @@ def st_case(draw: st.DrawFn, tier: str) -> dict:
             "sut_role": draw(st.sampled_from(["client", "server"])),
             "version": draw(st.sampled_from(["1.2", "1.3"])),
             "standard_compatible": draw(st.sampled_from([True, True, True, False])),
-            "peer_reply": draw(st.sampled_from(["prompt", "late", "never"])),
+            "peer_reply": draw(st.sampled_from(["prompt", "late", "never", "closed-first"])),
             "late_delay": draw(st.sampled_from([0.5, 5.0, 29.5])),
-            "shutdown_timeout": 30.0,
+            "shutdown_timeout": draw(st.sampled_from([30.0, 30.0, 0.0, 0.5])),
             "frag_to_sut": draw(st.sampled_from([[1 << 20], [7], [1]])),
             "frag_to_peer": [1 << 20],
             "delays": draw(st.sampled_from([[0.0], [0.01]])),
@@ -528,6 +575,15 @@ def st_case(draw: st.DrawFn, tier: str) -> dict:
         return {"path": path, "send_script": draw(st_mem_script()), "recv_script": draw(st_mem_script())}
     if path == "endpoint":
         return {"path": path, "mem_script": draw(st_mem_script())}
+    if path == "client-connecting":
+        return {
+            "path": path,
+            "starter": draw(st.sampled_from(["send", "send", "wait_connected"])),
+            "start_ticks": draw(st.integers(1, 4)),
+            # the connection attempt never completes by itself (None) or completes later: aclose() must not depend on it
+            "connect_completes_after": draw(st.sampled_from([None, None, 50.0])),
+            "mem_script": {"aclose_yields": draw(st.integers(0, 2)), "aclose_error": None},
+        }
     if path == "adapter":
         pending = draw(st.sampled_from([0, 0, 10, 5000]))
         drains = draw(st.sampled_from([None, 1.0, 3.0])) if pending else None
